@@ -569,7 +569,15 @@ pub fn run(ctx: &Ctx) {
         let t = toks[i].as_ref().unwrap();
         let donor = usable[d.below_usize(usable.len())];
         let m = mutate::mutate_struct(d, t, toks[donor].as_ref().unwrap(), quick);
-        let toml = c11gen::draw_toml(d, &[], quick);
+        // quick tier: instance limits below the defaults, so that a recursive std module whose
+        // base case was edited away ends in exceed_limit quickly instead of elaborating 2^depth
+        // instances up to the default limit of a million (slow, not a crash)
+        let mut_build: Vec<(String, String)> = if quick {
+            vec![("instance_depth_limit".into(), "32".into()), ("instance_total_limit".into(), "4096".into())]
+        } else {
+            vec![]
+        };
+        let toml = c11gen::draw_toml(d, &mut_build, quick);
         let mut files = vec![("a.veryl".to_string(), m.text)];
         let mut classes: Vec<String> = m.ops.iter().map(|o| format!("op:{o}")).collect();
         if d.chance(1, 6) {
